@@ -538,7 +538,7 @@ def reference_delivery(fmt, packets, decoder_kwargs=None):
     return out
 
 
-def client_frames(fmt, stream: bytes, cuts=None, decoder_kwargs=None, settle_s=2.0):
+def client_frames(fmt, stream: bytes, cuts=None, decoder_kwargs=None, settle_s=2.0, gap=0.0):
     """Feed `stream` (optionally cut at the given offsets) to the matching client on a healthy link; -> delivered messages (canonical)."""
     s = Session(FMT_KIND[fmt], client_kwargs=decoder_kwargs or {})
 
@@ -550,6 +550,11 @@ def client_frames(fmt, stream: bytes, cuts=None, decoder_kwargs=None, settle_s=2
         pos = 0
         for cut in list(cuts or []) + [len(stream)]:
             if cut > pos:
+                if gap:
+                    # a quiet bus: time passes (event-loop clock and process clock) before the next bytes arrive
+                    from .common import CLOCK
+                    CLOCK.warp(gap)
+                    await asyncio.sleep(gap)
                 link.feed(stream[pos:cut])
                 pos = cut
                 await asyncio.sleep(0)
